@@ -89,17 +89,6 @@ TrNew ==
           /\ UNCHANGED dead
   /\ UNCHANGED <<regs, pos, last, ok, ref, refi, var, st, runs, world, w0, nset, ndis, asy>>
 
-\* append-shaped placement of a new id in a layout
-PlaceOK(ly, p) ==
-  /\ Len(p) = 3
-  /\ \/ p[1] = Len(ly) + 1 /\ p[2] = 1 /\ p[3] = 1
-     \/ p[1] \in DOMAIN ly /\ p[2] = Len(ly[p[1]]) + 1 /\ p[3] = 1
-     \/ p[1] \in DOMAIN ly /\ p[2] \in DOMAIN ly[p[1]] /\ p[3] = Len(ly[p[1]][p[2]]) + 1
-Placed1(ly, p, id) ==
-  IF p[1] = Len(ly) + 1 THEN Append(ly, << <<id>> >>)
-  ELSE IF p[2] = Len(ly[p[1]]) + 1 THEN [ly EXCEPT ![p[1]] = Append(@, <<id>>)]
-  ELSE [ly EXCEPT ![p[1]][p[2]] = Append(@, id)]
-
 Members(b) == {x \in DOMAIN regs : regs[x].b = b /\ regs[x].kind # "rejected"}
 NoReg(e, kind) == [b |-> e.b, r |-> {}, w |-> {}, d |-> <<>>, t |-> 0, e |-> 0, nm |-> <<>>,
                    kind |-> kind, inner |-> 0, n |-> 0, rs |-> <<>>, ws |-> <<>>]
